@@ -76,4 +76,22 @@ Fixpoint stale (pr : prog) : st :=
   end.
 Definition class_b (pr : prog) (p : pkg) : bool := mem (fst p) (s_hz (stale pr)).
 
+(* (e), package.use lines: the (correct) token list of the line adds a flag that a later token of the
+   same line negates or clears; turning the line into one (neg, pos) chunk then keeps the flag *)
+Definition tcl (t f : N) : bool := (t =? 0) || pre_clears t f || (t =? f).
+Definition otok_clears (t : otok) (f : N) : bool :=
+  match t with
+  | OPos _ => false
+  | ONeg g => tcl g f
+  | OStar => true
+  | ONegPre p => tcl p f
+  end.
+Fixpoint npc (o : list otok) : bool :=      (* no positive later cleared *)
+  match o with
+  | [] => true
+  | t :: r => match t with OPos g => negb (existsb (fun u => otok_clears u g) r) | _ => true end && npc r
+  end.
+Definition class_e (ts : list tok) : bool :=
+  match split_line ts with Some o => negb (npc o) | None => false end.
+
 Definition known_class (pr : prog) (p : pkg) : bool := class_a pr p || class_b pr p || class_c pr p.
